@@ -1,0 +1,13 @@
+//go:build verif
+
+package server
+
+// verifHook, when set (by the verification harness), is called at every
+// scheduling point with the point's name; it may block to force a schedule.
+var verifHook func(name string)
+
+func verifPoint(name string) {
+	if h := verifHook; h != nil {
+		h(name)
+	}
+}
